@@ -218,7 +218,7 @@ def run_spec(spec, props=("C01", "C02")):
                 A.add(V("C04", fn, cls, s, m, r.chosen()))
         if "C05" in props:
             if not full:
-                for s, m in mon.c05_arrays(arrs, n, tmin, I0, R0, not sis):
+                for s, m in mon.c05_arrays(arrs, n, tmin, I0, R0, not sis, G=G):
                     A.add(V("C05", fn, cls, s, m, r.chosen()))
             else:
                 for s, m in mon.c05_full(out, nodes, tmin, I0, R0, not sis):
